@@ -292,7 +292,12 @@ class Eval:
 
     def stmt(self, s, sc, env, guard, writes):
         t = s.tag
-        if t in ('sentree', 'comment', 'display', 'dumpctl'):
+        if t in ('sentree', 'comment', 'dumpctl'):
+            return
+        if t in ('stop', 'finish', 'display'):
+            # $stop / $finish / $error / $display in a clocked block: an effect outside the design state (simulation ends, text on
+            # stdout); recorded as a write to a pseudo store named after the task, enabled by the path condition
+            writes.append(('$' + t, guard, const(1, 0), const(1, 0)))
             return
         if t in ('assign', 'assigndly'):
             self.assign(s[1], self.expr(s[0], sc, env), sc, env, guard, writes)
